@@ -459,7 +459,12 @@ def op_term(op, hints):
     if t == "open":
         return "Open %d" % op["k"]
     if t == "send":
-        return "Bytes %d %s %s %s" % (op["k"], hx(op["bytes"]), script_term(op.get("script")), hints)
+        data = op["bytes"]
+        if op.get("split") == "head":
+            data = ""                                   # an incomplete header line: nothing to dispatch yet
+        elif op.get("split") == "tail":
+            data = op["head"] + op["bytes"]
+        return "Bytes %d %s %s %s" % (op["k"], hx(data), script_term(op.get("script")), hints)
     if t == "hangup":
         return "Hangup %d %s %s" % (op["k"], script_term(op.get("script")), hints)
     if t == "m2s_direct":
@@ -548,6 +553,14 @@ def acl_histories(r, thorough, types=("join", "publish", "read")):
             g.send(owner, frame("SET_CHAN_ACL", [("id", g.rid()), ("channel", ch), ("type", ty),
                                                     ("action", r.choice(["add", "add", "remove", "remove"])), ("nids", nids)]))
             g.send(owner, frame("GET_CHAN_ACL", [("id", g.rid()), ("channel", ch), ("type", ty)]))
+        if r.random() < 0.5:
+            # end on a bare-domain entry: whatever user entries of the local domain were listed are removed, then the
+            # domain itself is added (its users are then admitted only through the bare entry)
+            g.send(owner, frame("SET_CHAN_ACL", [("id", g.rid()), ("channel", ch), ("type", ty), ("action", "remove"),
+                                                    ("nids", [u + "@localhost" for u in USERS])]))
+            g.send(owner, frame("SET_CHAN_ACL", [("id", g.rid()), ("channel", ch), ("type", ty), ("action", "add"),
+                                                    ("nids", r.choice([["localhost"], ["localhost", "other.example.org"], ["eve@other.example.org", "localhost"]]))]))
+            g.send(owner, frame("GET_CHAN_ACL", [("id", g.rid()), ("channel", ch), ("type", ty)]))
         for u in USERS[1:]:
             if ty == "join":
                 g.send(ks[u], frame("JOIN", [("id", g.rid()), ("channel", ch)]))
@@ -561,3 +574,110 @@ def acl_histories(r, thorough, types=("join", "publish", "read")):
     return cases
 
 
+
+
+def op_bytes(op):
+    """the whole frames a send op completes (a split header counts in the op that carries its tail)"""
+    if op.get("split") == "head":
+        return b""
+    if op.get("split") == "tail":
+        return bytes.fromhex(op["head"] + op["bytes"])
+    return bytes.fromhex(op["bytes"])
+
+
+def _login(g, users):
+    ks = {}
+    for u in users:
+        k = g.next_k
+        g.next_k += 1
+        g.ops.append({"t": "open", "k": k})
+        g.send(k, frame("CONNECT", [("version", 1), ("heartbeat_interval", 0)]), [])
+        g.send(k, frame("IDENTIFY", [("username", u)]), [])
+        g.conns[k] = {"phase": 2, "user": u}
+        ks[u] = k
+    return ks
+
+
+def kick_histories(r, thorough):
+    """directed: an owner removes a member with LEAVE on_behalf, then the history returns to a boundary that depends on
+    the per-user channel index: the owner disconnects (hand-over, clean-up), the removed member re-joins up to its
+    subscription limit, the owner fills its own limit, a reconnecting namesake probes ownership; ends with the audit."""
+    import srvmon
+    cases = []
+    for _ in range(160 if thorough else 30):
+        mod = r.choice([None, None, MOD_CONFIGS[3], MOD_CONFIGS[4]])
+        cfg = base_cfg(r, mod)
+        cfg.update({"max_clients": 10, "max_subs": r.choice([1, 2, 2, 3, 3, 10]), "max_conns": 16, "max_channels": r.choice([1, 2, 3, 3, 100])})
+        g = Gen(r, cfg)
+        ks = _login(g, USERS)
+        chans = CHANNELS[:r.choice([1, 2, 3])]
+        owner = r.choice(USERS[:2])
+        others = [u for u in USERS if u != owner]
+        for ch in chans:
+            g.send(ks[owner], frame("JOIN", [("id", g.rid()), ("channel", ch)]), [])
+            for u in others[:r.choice([1, 2, 3])]:
+                g.send(ks[u], frame("JOIN", [("id", g.rid()), ("channel", ch)]), [])
+        victim = others[0]
+        ch = chans[0]
+        g.send(ks[owner], frame("LEAVE", [("id", g.rid()), ("channel", ch), ("on_behalf", victim + "@localhost")]), [])
+        tail = r.choice(["owner_drops", "owner_drops", "victim_refills", "owner_fills", "owner_leaves"])
+        if tail == "owner_drops":
+            if r.random() < 0.5:
+                g.ops.append({"t": "hangup", "k": ks[owner], "script": []})
+            else:
+                g.send(ks[owner], b"BOGUS\n", [])          # closed by the server
+            del g.conns[ks[owner]]
+            k = g.next_k
+            g.next_k += 1
+            g.ops.append({"t": "open", "k": k})
+            g.send(k, frame("CONNECT", [("version", 1), ("heartbeat_interval", 0)]), [])
+            g.send(k, frame("IDENTIFY", [("username", owner)]), [])
+            g.conns[k] = {"phase": 2, "user": owner}
+            g.send(k, frame("SET_CHAN_ACL", [("id", g.rid()), ("channel", ch), ("type", "join"), ("action", "add"), ("nids", ["dave@localhost"])]), [])
+            g.send(ks[others[1]], frame("MEMBERS", [("id", g.rid()), ("channel", ch)]), [])
+        elif tail == "victim_refills":
+            for c2 in CHANNELS + ["!c4@localhost", "!c5@localhost"]:
+                g.send(ks[victim], frame("JOIN", [("id", g.rid()), ("channel", c2)]), [])
+        elif tail == "owner_fills":
+            for c2 in CHANNELS + ["!c4@localhost", "!c5@localhost"]:
+                g.send(ks[owner], frame("JOIN", [("id", g.rid()), ("channel", c2)]), [])
+            g.ops.append({"t": "hangup", "k": ks[owner], "script": []})
+            del g.conns[ks[owner]]
+        else:
+            g.send(ks[owner], frame("LEAVE", [("id", g.rid()), ("channel", ch)]), [])
+        cases.append({"cfg": cfg, "ops": g.ops + srvmon.audit_ops(g)})
+    return cases
+
+
+def split_histories(r, thorough):
+    """directed (C10 at the connection loop): a request header arrives in two writes and, in between, the server
+    writes something to that same connection (a MESSAGE / EVENT caused by another client, or a reply to an earlier
+    pipelined request).  The model sees the bytes of both pieces in the op that completes the frame (split-independence
+    is Proofs/FramingSeg.v); the op that carries only the head is a no-op for the model."""
+    cases = []
+    for _ in range(120 if thorough else 20):
+        cfg = base_cfg(r, None)
+        cfg.update({"max_clients": 10, "max_subs": 10, "max_conns": 16, "max_channels": 100, "max_inflight": 10})
+        g = Gen(r, cfg)
+        ks = _login(g, ["alice", "bob", "carol"])
+        ch = "!c1@localhost"
+        for u in ("alice", "bob"):
+            g.send(ks[u], frame("JOIN", [("id", g.rid()), ("channel", ch)]), [])
+        for _ in range(r.randint(1, 4)):
+            req = r.choice([frame("CHANNELS", [("id", g.rid()), ("owner", False)]),
+                            frame("MEMBERS", [("id", g.rid()), ("channel", ch)]),
+                            frame("GET_CHAN_CONFIG", [("id", g.rid()), ("channel", ch)]),
+                            frame("BROADCAST", [("id", g.rid()), ("channel", ch), ("length", 3), ("qos", 1)], b"xyz")])
+            line_end = req.index(b"\n")
+            cut = r.randint(1, line_end)          # inside the header line (possibly right before the newline)
+            head, tail = req[:cut], req[cut:]
+            g.ops.append({"t": "send", "k": ks["alice"], "bytes": head.hex(), "script": [], "split": "head"})
+            kind = r.choice(["message", "event", "nothing", "message"])
+            if kind == "message":
+                g.send(ks["bob"], frame("BROADCAST", [("id", g.rid()), ("channel", ch), ("length", 5)], b"hello"), [])
+            elif kind == "event":
+                g.send(ks["carol"], frame("JOIN", [("id", g.rid()), ("channel", ch)]), [])
+                g.send(ks["carol"], frame("LEAVE", [("id", g.rid()), ("channel", ch)]), [])
+            g.ops.append({"t": "send", "k": ks["alice"], "bytes": tail.hex(), "script": [], "split": "tail", "head": head.hex()})
+        cases.append({"cfg": cfg, "ops": g.ops})
+    return cases
